@@ -34,7 +34,8 @@ RULE = ("Model-based: the C07 world histories (snapshot from a generated pre-his
         "steps: recording ICircuitListener/IStreamListener doubles registered globally (before bootstrap or at "
         "any step) or on one object, removed at any step; when_built()/when_closed()/Circuit.close()/"
         "Stream.close() requested at any step, repeatedly, on live and on already-gone objects; the reply to "
-        "CLOSECIRCUIT/CLOSESTREAM is a separate step so it arrives before or after the CLOSED/FAILED event. "
+        "CLOSECIRCUIT/CLOSESTREAM is a separate step (ack) and so is tor carrying out the close (x_gone, or any "
+        "c_close/s_close), so the acknowledgement arrives before or after the CLOSED/FAILED event. "
         "After every event the calls each double received during that event are compared with the calls "
         "derived from the world's transition; after every step every wait's state is compared with "
         "pending/succeeded/failed as the statement prescribes. Non-trivial = >=6 events, at least one judged "
@@ -218,13 +219,13 @@ def _match(call, spec):
     return None
 
 
-def judge_listener(res, lst, new_calls, req, opt, registered, where):
+def judge_listener(res, lst, new_calls, req, opt, registered, where, anyone=False):
     who = "%s-listener %s%d" % ("circuit" if lst.kind == "c" else "stream",
                                 "G" if lst.is_global else "P", lst.idx)
     if not registered:
-        allowed_opt = list(opt) if opt and not req else []     # zombie CLOSED: anyone may hear it
         req = []
-        opt = allowed_opt
+        if not anyone:          # only the CLOSED of an already-FAILED connection may reach anybody
+            opt = []
     calls = list(new_calls)
     for spec in req:
         hit = None
@@ -411,7 +412,7 @@ class Run(object):
                         res.label("judged:per-object-listener")
                 elif not registered and req and (l.active_global or l.reg):
                     res.label("judged:silence-of-" + ("removed-global" if l.active_global else "other-object's") + "-listener")
-                judge_listener(res, l, new, req, opt, registered, (where, inc))
+                judge_listener(res, l, new, req, opt, registered, (where, inc), anyone=rp.zombie)
             # classification of close orders
             if rp.status in ("CLOSED", "FAILED") and not rp.zombie:
                 for wt in self.waits:
@@ -632,7 +633,7 @@ MANIFEST = {
 
 
 def run(ctx):
-    ctx.search("schedule", cases(), quick=1800, thorough=4000)
+    ctx.search("schedule", cases(), quick=1800, thorough=5000)
 
 
 MUTANTS = [
@@ -680,6 +681,21 @@ MUTANTS = [
     ("listen-does-not-deduplicate", "txtorcon/circuit.py",
      "        if listener not in self.listeners:\n            self.listeners.append(listener)",
      "        self.listeners.append(listener)"),
+    ("repeated-circuit-close-completes-immediately", "txtorcon/circuit.py",
+     "        if self._closing_deferred:\n            d = defer.Deferred()\n",
+     "        if self._closing_deferred:\n            return defer.succeed(None)\n            d = defer.Deferred()\n"),
+    ("stream-close-wait-not-fired-on-failed", "txtorcon/stream.py",
+     "            self.circuit = None\n            self.maybe_call_closing_deferred()\n            # build lower-case version of all flags",
+     "            self.circuit = None\n            # build lower-case version of all flags"),
+    ("circuit-close-hangs-when-event-precedes-ack", "txtorcon/circuit.py",
+     "            self._closing_deferred.callback(self)\n            self._closing_deferred = None",
+     "            self._closing_deferred.callback(self)\n            self._closing_deferred = defer.Deferred()"),
+    ("global-stream-listeners-only-for-streams-first-seen-NEW", "txtorcon/torstate.py",
+     "            for x in self.stream_listeners:\n                stream.listen(x)",
+     "            for x in (self.stream_listeners if args[1] == 'NEW' else []):\n                stream.listen(x)"),
+    ("guard-wait-counts-as-built", "txtorcon/circuit.py",
+     "        if self.state == 'BUILT':\n            for x in self.listeners:\n                x.circuit_built(self)",
+     "        if self.state in ('BUILT', 'GUARD_WAIT'):\n            for x in self.listeners:\n                x.circuit_built(self)"),
     ("stream-listen-does-not-deduplicate", "txtorcon/stream.py",
      "        if listener not in self.listeners:\n            self.listeners.append(listener)",
      "        self.listeners.append(listener)"),
